@@ -299,6 +299,70 @@ pub fn run(tier: &str) -> Result<Report, String> {
     }
     rep.set("valid_extended_formulae", json!(fs.len()));
     rep.set("formula_label_subset_cases", json!(subsets_total));
+    // (b3) one context label in BOTH roles (wild-card proposition %s% and domain `in %s%`), inside one formula and across the
+    //      formulae of a batch: valid input - every multi-formula extended entry point must return Ok, position by position
+    //      the result of the formula evaluated on its own
+    {
+        let pool = [
+            "EF %s%", "%t% & AX %s%", "3{x} in %s%: @{x}: AX {x}", "!{x} in %s%: AX {x}", "V{x} in %t%: (%s% | EF {x})", "!{x} in %t%: (%t% & EX {x})", "%t%",
+            "3{x} in %t%: 3{y} in %s%: (@{x}: EF {y})", "!{x} in %s%: (%s% | AX {x})",
+        ];
+        let g = &env.graphs[2];
+        let sets: Ctx = HashMap::from([("s".to_string(), b.mk_set_in(g, &fams[0].1.dom[0])), ("t".to_string(), b.mk_set_in(g, &fams[0].1.wild[0]))]);
+        let single: Vec<Result<GraphColoredVertices, String>> = pool.iter().map(|f| guarded(AssertUnwindSafe(|| mc::model_check_extended_formula_dirty(f, g, &sets))).and_then(|r| r)).collect();
+        let mut lists: Vec<Vec<usize>> = vec![];
+        for i in 0..pool.len() {
+            for j in 0..pool.len() {
+                if i != j {
+                    lists.push(vec![i, j]);
+                    if tier != "quick" || (i + j) % 2 == 0 {
+                        for l in 0..pool.len() {
+                            if l != i && l != j {
+                                lists.push(vec![i, j, l]);
+                            }
+                        }
+                    }
+                }
+            }
+        }
+        let bad: Vec<Violation> = lists
+            .par_iter()
+            .filter_map(|l| {
+                let texts: Vec<&str> = l.iter().map(|i| pool[*i]).collect();
+                let runs: Vec<(&str, Result<Result<Vec<GraphColoredVertices>, String>, String>)> = vec![
+                    ("model_check_multiple_extended_formulae_dirty", guarded(AssertUnwindSafe(|| mc::model_check_multiple_extended_formulae_dirty(texts.clone(), g, &sets)))),
+                    ("_model_check_multiple_extended_formulae_dirty", guarded(AssertUnwindSafe(|| mc::_model_check_multiple_extended_formulae_dirty(texts.clone(), g, &sets, &mut cb)))),
+                    ("model_check_multiple_extended_formulae", guarded(AssertUnwindSafe(|| mc::model_check_multiple_extended_formulae(texts.clone(), g, &sets)))),
+                ];
+                for (entry, r) in runs {
+                    let what = match r {
+                        Err(p) => Some(format!("{entry}({texts:?}) panics: {p}")),
+                        Ok(Err(e)) => Some(format!("{entry}({texts:?}) returns Err for a valid batch with a complete context: {e}")),
+                        Ok(Ok(v)) => {
+                            if v.len() != l.len() {
+                                Some(format!("{entry}({texts:?}) returns {} results", v.len()))
+                            } else if entry.ends_with("_dirty") {
+                                l.iter().enumerate().find_map(|(pos, i)| match &single[*i] {
+                                    Ok(s) if s.as_bdd() == v[pos].as_bdd() => None,
+                                    Ok(_) => Some(format!("{entry}({texts:?}): position {pos} differs from the formula evaluated on its own")),
+                                    Err(e) => Some(format!("single evaluation of {} fails: {e}", pool[*i])),
+                                })
+                            } else {
+                                None
+                            }
+                        }
+                    };
+                    if let Some(w) = what {
+                        return Some(Violation { case: json!({"kind": "none"}), what: w, size: l.len() });
+                    }
+                }
+                None
+            })
+            .collect();
+        rep.evaluations += lists.len() as u64 * 3;
+        rep.add_count("batches_with_one_label_in_both_roles", lists.len() as u64);
+        rep.violations.extend(bad.into_iter().take(20));
+    }
     // (b2) binding rules through the string entry points: every tree over a binder-focused alphabet
     //      (two variable names, all three quantifiers, jump, one unary and one binary operator), printed;
     //      the ill-scoped ones must be rejected, the well-scoped ones accepted, by every entry point
@@ -438,7 +502,7 @@ pub fn run(tier: &str) -> Result<Report, String> {
     rep.sample(json!({"input": "!{x}: @{y}: a", "expected": "Err from every entry point (free jump target), for every k"}));
     rep.sample(json!({"input": "3{y} in %d%: ~ {y}", "labels_present": ["p"], "expected": "Err (domain d has no context set)"}));
     rep.sample(json!({"input": "3{y} in %d%: ~ {y}", "labels_present": ["p", "d"], "k": 0, "expected": "Err (needs 1 spare variable set)"}));
-    rep.rule = format!("(a) every sequence of 1..{t} tokens over {TOKENS:?} and every string of 1..{k} symbols over {CHARS:?} through all 25 string entry points (plain, dirty, multiple, extended, unsafe_ex, callback variants, lists [valid,s] / [s,valid] with a short and with a tall valid formula) on graphs with k=0,2 (k=0..3 when the grammar derives the string) spare variable sets; (a2) every sequence of <= 3 (4) tokens over {{EF_x, _x, EF, AG_x, EX_x, AG, ~, &, EU_x, EU, (, ), AX_, x}} on a network with the variables EF_x and _x; (b) every closed extended formula with <= {m} nodes x every subset of its required labels (sets: mixed / empty / full / colour-disjoint families) x k in {{depth-1, depth, 3}}; (b2) every tree with at most 5 (thorough 7) nodes over the binder-focused alphabet {{a, x, y, AX, &, @, and ! / 3 / V each without and with the domain %d%}} printed and given to all 25 entry points (ill-scoped: Err; well-scoped: Ok when k suffices); (c) {} deep / long inputs (nesting 10 and 40; long names of 2-, 3- and 4-byte characters at every byte alignment; 7 kinds of Unicode white space in every gap of every hybrid operator header). Oracle: Ok iff reference parser accepts, scope rules hold, all labels present and k >= nesting depth; Err otherwise; a panic is always a violation. distinct_nontrivial = number of enumerated strings the grammar derives", deep.len());
+    rep.rule = format!("(a) every sequence of 1..{t} tokens over {TOKENS:?} and every string of 1..{k} symbols over {CHARS:?} through all 25 string entry points (plain, dirty, multiple, extended, unsafe_ex, callback variants, lists [valid,s] / [s,valid] with a short and with a tall valid formula) on graphs with k=0,2 (k=0..3 when the grammar derives the string) spare variable sets; (a2) every sequence of <= 3 (4) tokens over {{EF_x, _x, EF, AG_x, EX_x, AG, ~, &, EU_x, EU, (, ), AX_, x}} on a network with the variables EF_x and _x; (b) every closed extended formula with <= {m} nodes x every subset of its required labels (sets: mixed / empty / full / colour-disjoint families) x k in {{depth-1, depth, 3}}; (b3) every ordered pair and triple of 9 formulae that use one context label both as a wild-card proposition and as a domain, through three multi-formula extended entry points (Ok, position by position the single result); (b2) every tree with at most 5 (thorough 7) nodes over the binder-focused alphabet {{a, x, y, AX, &, @, and ! / 3 / V each without and with the domain %d%}} printed and given to all 25 entry points (ill-scoped: Err; well-scoped: Ok when k suffices); (c) {} deep / long inputs (nesting 10 and 40; long names of 2-, 3- and 4-byte characters at every byte alignment; 7 kinds of Unicode white space in every gap of every hybrid operator header). Oracle: Ok iff reference parser accepts, scope rules hold, all labels present and k >= nesting depth; Err otherwise; a panic is always a violation. distinct_nontrivial = number of enumerated strings the grammar derives", deep.len());
     rep.assumptions.push("context sets satisfy the documented precondition (inside the unit set, independent of auxiliary variables)".into());
     Ok(rep)
 }
